@@ -261,7 +261,36 @@ fn synthetic_minimizer_shapes(rng: &mut Rng) -> ScannerCfg {
     let lit = |c: char| Re::Lit(c, LitStyle::Verbatim);
     let word = |s: &str| Re::Cat(s.chars().map(lit).collect());
     let ab = || Re::Class(Class { neg: false, set: CSet::Union(vec![Item::Range('a', 'b')]) });
-    match rng.below(9) {
+    match rng.below(11) {
+        // several one-character patterns sharing ONE token type next to periodic words (b-an-an-a,
+        // ====, ababab): the refinement needs one round per period, and the accepting groups of
+        // the initial partition are fewer than the patterns
+        9 | 10 => {
+            let k = rng.range(2, 5);
+            let singles = [',', ';', ':', '.', '!', '?'];
+            let mut pats: Vec<RefPattern> = (0..k).map(|i| RefPattern { re: lit(singles[i]), tt: 1, la: None }).collect();
+            let nwords = rng.range(1, 2);
+            for j in 0..nwords {
+                let unit = ["an", "ab", "a", "=", "xy", "é"][rng.below(6)];
+                let reps = rng.range(2, 4);
+                let mut w = String::new();
+                if rng.chance(1, 2) {
+                    w.push('b');
+                }
+                for _ in 0..reps {
+                    w.push_str(unit);
+                }
+                if rng.chance(1, 2) {
+                    w.push(unit.chars().next().unwrap());
+                }
+                let tt = if rng.chance(1, 3) { 1 } else { 2 + j };
+                let at = rng.below(pats.len() + 1);
+                // keep patterns of one token type adjacent (the stated bound of the reference)
+                let at = if tt == 1 { at.min(k) } else { pats.len() };
+                pats.insert(at, RefPattern { re: word(&w), tt, la: None });
+            }
+            ScannerCfg::single(pats)
+        }
         // random finite languages: words of 2-4 letters, 2-3 letters to choose from per position, a
         // random subset of all such words, spread over 1-3 patterns, written flat or factored by
         // the first letter. The tries of such sets are full of states that differ only in WHICH
@@ -288,7 +317,7 @@ fn synthetic_minimizer_shapes(rng: &mut Rng) -> ScannerCfg {
                 }
                 words = next;
             }
-            let npats = rng.range(1, 3);
+            let npats = rng.range(1, 5);
             let mut per: Vec<Vec<String>> = vec![Vec::new(); npats];
             for w in words {
                 if rng.chance(1, 2) {
@@ -302,6 +331,8 @@ fn synthetic_minimizer_shapes(rng: &mut Rng) -> ScannerCfg {
             }
             let factored = rng.chance(1, 2);
             let loop_on_last = rng.chance(1, 4);
+            // now and then all patterns report one token type (then only the language matters)
+            let same_type = rng.chance(1, 3);
             let mk_word = |w: &str| -> Re {
                 let mut items: Vec<Re> = w.chars().map(lit).collect();
                 if loop_on_last {
@@ -332,7 +363,7 @@ fn synthetic_minimizer_shapes(rng: &mut Rng) -> ScannerCfg {
                         let bs: Vec<Re> = ws.iter().map(|w| mk_word(w)).collect();
                         if bs.len() == 1 { bs.into_iter().next().unwrap() } else { Re::Alt(bs) }
                     };
-                    RefPattern { re, tt: i + 1, la: None }
+                    RefPattern { re, tt: if same_type { 7 } else { i + 1 }, la: None }
                 })
                 .collect();
             ScannerCfg::single(pats)
